@@ -55,6 +55,16 @@ if not ok:
     print("NOT CONFIRMED - not kept")
     print(d1.stdout[-600:])
     sys.exit(1)
+if "--nocheck" in sys.argv:
+    # confirmed and kept; the check is run side by side in a scratch worktree (tools/try_mutant_wt.sh <dir> <prop> quick --record)
+    os.makedirs(dst, exist_ok=True)
+    shutil.copy(os.path.join(src, "patch.diff"), dst)
+    shutil.copy(os.path.join(src, "demo.py"), dst)
+    meta = json.load(open(os.path.join(src, "meta.json")))
+    meta.update(id=sid, property=prop, confirmed=ran)
+    json.dump(meta, open(os.path.join(dst, "meta.json"), "w"), indent=1)
+    print("kept as", dst, "(check pending)")
+    sys.exit(0)
 # run the check against the patched /repo
 subprocess.run("git -C /repo apply %s/patch.diff" % src, shell=True, check=True)
 try:
